@@ -30,3 +30,4 @@ import EtVerif.Props.TrC04
 -- refinement of the translated Go kernels (Gen/Translated.lean, regenerated from /repo) to the model
 #print axioms EtVerif.TrC04.canonicalize_refines
 #print axioms EtVerif.TrC04.canonicalizeTrustVector_refines
+#print axioms EtVerif.TrC04.canonicalizeLocalTrust_refines
